@@ -136,7 +136,10 @@ def generate(seed, tier, idx=0):
             if rng.random() < 0.10:
                 t = rng.choice([ref.clock - 1, ref.clock - 0.5, ref.end + 2, ref.end + 0.5,
                                 ref.end + 1, ref.end + 5])
-            if prog["clock"] == "int":
+            if prog["clock"] == "int" and not (float(t) != int(t) and rng.random() < 0.5
+                                               and abs(t) < 2 ** 40):
+                # (half of the fractional candidates are kept: a float bound between
+                # two instants of an int clock)
                 t = int(t)
             if name == "run_up_to" and t == ref.end:
                 # (exactly at the end "excluding" and "not resumable" jointly
